@@ -432,6 +432,8 @@ impl LogReader {
 
         // A buffer consolidating all of the fragments retrieved from the log file.
         let mut data_buffer: Vec<u8> = vec![];
+        // True if a `First` fragment was read and its record has not been completed yet
+        let mut in_fragmented_record = false;
 
         loop {
             let maybe_record = self.read_physical_record();
@@ -442,18 +444,32 @@ impl LogReader {
                         _ => return Err(physical_read_err),
                     }
                 }
+
+                // A fragment was dropped so the record being assembled cannot be completed
+                data_buffer.clear();
+                in_fragmented_record = false;
             } else {
                 let record = maybe_record.unwrap();
-                data_buffer.extend(record.data);
 
                 match record.block_type {
                     BlockType::Full => {
-                        return Ok((data_buffer, false));
+                        // A preceding partial record was left by a writer that died mid-record
+                        return Ok((record.data, false));
                     }
-                    BlockType::First => {}
-                    BlockType::Middle => {}
+                    BlockType::First => {
+                        data_buffer = record.data;
+                        in_fragmented_record = true;
+                    }
+                    BlockType::Middle => {
+                        if in_fragmented_record {
+                            data_buffer.extend(record.data);
+                        }
+                    }
                     BlockType::Last => {
-                        return Ok((data_buffer, false));
+                        if in_fragmented_record {
+                            data_buffer.extend(record.data);
+                            return Ok((data_buffer, false));
+                        }
                     }
                 }
             }
